@@ -139,7 +139,12 @@ def hasDupStr : List String → Bool
   | [] => false
   | x :: xs => xs.contains x || hasDupStr xs
 
-def notPrefix (neg : Bool) : String := if neg then "not " else ""
+/-- Python `str` values are modelled as character lists (`String.ofList` at the boundary) -/
+def notSpC : List Char := "not ".toList
+def notParC : List Char := "not (".toList
+def orSep : List Char := " or ".toList
+def andSep : List Char := " and ".toList
+def notPrefix (neg : Bool) : List Char := if neg then notSpC else []
 
 def Cond.isConj : Cond → Bool
   | .conj _ => true
@@ -153,30 +158,39 @@ def isSingleton {α} : List α → Bool
   | [_] => true
   | _ => false
 
+/-- `sep.join(parts)` -/
+def joinChars (sep : List Char) : List (List Char) → List Char
+  | [] => []
+  | [a] => a
+  | a :: rest => a ++ sep ++ joinChars sep rest
+
 mutual
 /-- `str(condition)` -/
-def printCond : Cond → String
-  | .single neg n => notPrefix neg ++ n
-  | .score neg n s => notPrefix neg ++ "minscore(" ++ n ++ ", " ++ toString s ++ ")"
+def printChars : Cond → List Char
+  | .single neg n => notPrefix neg ++ n.toList
+  | .score neg n s => notPrefix neg ++ "minscore(".toList ++ n.toList ++ ", ".toList ++ (toString s).toList ++ [')']
   | .minimum neg c opts =>
-      notPrefix neg ++ "minimum(" ++ toString c ++ ", [" ++ ", ".intercalate (sortDedupStr opts) ++ "])"
+      notPrefix neg ++ "minimum(".toList ++ (toString c).toList ++ ", [".toList
+        ++ joinChars ", ".toList ((sortDedupStr opts).map String.toList) ++ "])".toList
   | .cds neg subs =>
-      let t := printJoin " or " subs
-      -- D43 fix: a lone parenthesised operand keeps its parentheses (`cds(a)` is not valid)
-      let t := if isSingleton subs && subs.all Cond.isGroup && !t.startsWith "(" then "(" ++ t ++ ")" else t
-      notPrefix neg ++ "cds(" ++ t ++ ")"
+      let t := printJoin orSep subs
+      -- D26 fix: a lone parenthesised operand keeps its parentheses (`cds(a)` is not valid)
+      let t := if isSingleton subs && subs.all Cond.isGroup && !(t.head? == some '(') then '(' :: t ++ [')'] else t
+      notPrefix neg ++ "cds(".toList ++ t ++ [')']
   | .group neg subs =>
-      let t := printJoin " or " subs
+      let t := printJoin orSep subs
       if isSingleton subs && !(subs.all Cond.isConj) then
         -- D17 fix: a directly nested negation keeps its parentheses
-        if neg && t.startsWith "not " then "not (" ++ t ++ ")" else notPrefix neg ++ t
-      else notPrefix neg ++ "(" ++ t ++ ")"
-  | .conj subs => printJoin " and " subs
-def printJoin (sep : String) : List Cond → String
-  | [] => ""
-  | [c] => printCond c
-  | c :: cs => printCond c ++ sep ++ printJoin sep cs
+        if neg && notSpC.isPrefixOf t then notParC ++ t ++ [')'] else notPrefix neg ++ t
+      else notPrefix neg ++ '(' :: t ++ [')']
+  | .conj subs => printJoin andSep subs
+def printJoin (sep : List Char) : List Cond → List Char
+  | [] => []
+  | [c] => printChars c
+  | c :: cs => printChars c ++ sep ++ printJoin sep cs
 end
+
+def printCond (c : Cond) : String := String.ofList (printChars c)
 
 def printConds (subs : List Cond) : List String := subs.map printCond
 
@@ -488,23 +502,19 @@ def pyInt (cs : List Char) : Option Nat :=
   let groups := splitOnChar '_' cs
   if groups.all isDigits then some (digitsVal (cs.filter (· != '_'))) else none
 
-/-- `_parse_example` + `ExampleRecord.__init__` -/
-def parseExample (s : PS) : Except Err (Example × PS) := do
-  let (_, s) ← consume .example s
-  let (database, s) ← consumeId s
-  let (accession, s) ← consumeId s
-  let (_, s) ← consume .dot s
-  let (version, s) ← consumeInt s
-  let (range, s) ← consume .text s
-  let (compound, s) ← (match s.cur with
-    | none => pure ([], s)
-    | some c =>
-      match skipText c s.rest [] with
-      | none => .error .syntax
-      | some (skipped, c', rest') => pure (skipped, { s with cur := some c', rest := rest' })
-    : Except Err (List Tok × PS))
-  let compoundName := if compound.isEmpty then none else some (" ".intercalate (compound.map (·.text)))
-  match splitOnChar '-' range.text.toList with
+/-- the raw loop over the compound name of an EXAMPLE: nothing to skip at the end of the input,
+    otherwise up to the next rule keyword (running out of input is an error) -/
+def skipFree (s : PS) : Except Err (List Tok × PS) :=
+  match s.cur with
+  | none => pure ([], s)
+  | some c =>
+    match skipText c s.rest [] with
+    | none => .error .syntax
+    | some (skipped, c', rest') => pure (skipped, { s with cur := some c', rest := rest' })
+
+/-- the checks at the end of `_parse_example` and `ExampleRecord.__init__`: start and end of the range -/
+def exampleRange (database : String) (version : Nat) (range : String) : Except Err (Nat × Nat) :=
+  match splitOnChar '-' range.toList with
   | [a, b] =>
     match pyInt a with
     | none => .error .syntax
@@ -515,8 +525,26 @@ def parseExample (s : PS) : Except Err (Example × PS) := do
         if database != "NCBI" then .error .attr
         else if version < 1 then .error .attr
         else if !(start ≤ stop) then .error .attr
-        else pure (⟨database, accession, version, start, stop, compoundName⟩, s)
+        else pure (start, stop)
   | _ => .error .syntax
+
+def mkExample (database accession : String) (version : Nat) (range : String) (compound : List Tok) :
+    Except Err Example := do
+  let (start, stop) ← exampleRange database version range
+  let compoundName := if compound.isEmpty then none else some (" ".intercalate (compound.map (·.text)))
+  pure ⟨database, accession, version, start, stop, compoundName⟩
+
+/-- `_parse_example` + `ExampleRecord.__init__` -/
+def parseExample (s : PS) : Except Err (Example × PS) := do
+  let (_, s) ← consume .example s
+  let (database, s) ← consumeId s
+  let (accession, s) ← consumeId s
+  let (_, s) ← consume .dot s
+  let (version, s) ← consumeInt s
+  let (range, s) ← consume .text s
+  let (compound, s) ← skipFree s
+  let e ← mkExample database accession version range.text compound
+  pure (e, s)
 
 /-- `while self.current_token.type == TokenTypes.EXAMPLE` (a `None` token is an AttributeError) -/
 def examplesLoop : Nat → List Example → PS → Except Err (List Example × PS)
@@ -618,8 +646,7 @@ def ruleEnd (s : PS) : Except Err Unit :=
   | none => pure ()
 
 /-- `_parse_rule` (without the multipliers, applied by the caller) -/
-def parseRule (cfg : Cfg) (s : PS) : Except Err (Rule × PS) := do
-  let fuel := s.budget
+def parseRuleWith (fuel : Nat) (cfg : Cfg) (s : PS) : Except Err (Rule × PS) := do
   let ((name, category), s) ← parseHead cfg s
   let ((description, examples, related, superiors), s) ← parseMeta fuel s
   let ((cutoff, neighbourhood), s) ← parseDistances s
@@ -633,6 +660,9 @@ def parseRule (cfg : Cfg) (s : PS) : Except Err (Rule × PS) := do
   if extendersNegative extenders then .error .value else
   pure ({ name, category, cutoff, neighbourhood, conditions,
           description, examples, superiors, related, extenders }, s)
+
+/-- `_parse_rule` with the fuel computed from the remaining input -/
+def parseRule (cfg : Cfg) (s : PS) : Except Err (Rule × PS) := parseRuleWith s.budget cfg s
 
 /-- the `while` loop of `_parse_alias` -/
 def aliasLoop : Nat → List Tok → PS → Except Err (List Tok × PS)
@@ -649,8 +679,7 @@ def aliasLoop : Nat → List Tok → PS → Except Err (List Tok × PS)
         aliasLoop fuel (acc ++ [c']) s
 
 /-- `_parse_alias` -/
-def parseAlias (s : PS) : Except Err ((String × List Tok) × PS) := do
-  let fuel := s.budget
+def parseAliasWith (fuel : Nat) (s : PS) : Except Err ((String × List Tok) × PS) := do
   let (_, s) ← consume .define s
   if s.curAliased then .error .syntax else
   let (name, s) ← consumeId s
@@ -658,6 +687,8 @@ def parseAlias (s : PS) : Except Err ((String × List Tok) × PS) := do
   let (toks, s) ← aliasLoop fuel [] s
   if toks.isEmpty then .error .syntax else
   pure ((name, toks), s)
+
+def parseAlias (s : PS) : Except Err ((String × List Tok) × PS) := parseAliasWith s.budget s
 
 /-- `_verify_alias_name` -/
 def verifyAliasName (cfg : Cfg) (rules : List Rule) (name : String) : Except Err Unit :=
@@ -730,10 +761,14 @@ def createRules (cfg : Cfg) : List String → List Rule → Aliases → Except E
     let (rules, aliases) ← parseText cfg rules aliases text
     createRules cfg more rules aliases
 
+/-- the condition text of `reconstruct_rule_text`: outer parentheses stripped when the text starts
+    with `(` and ends with `)` -/
+def topChars (c : Cond) : List Char :=
+  let t := printChars c
+  if t.head? == some '(' && t.getLast? == some ')' then (t.drop 1).dropLast else t
+
 /-- `DetectionRule.reconstruct_rule_text` -/
 def Rule.reconstruct (r : Rule) : String :=
-  let t := printCond r.conditions
-  let t := if t.startsWith "(" && t.endsWith ")" then ((t.drop 1).dropEnd 1).toString else t
   let comments := (if r.description.isEmpty then "" else "DESCRIPTION " ++ " ".intercalate r.description ++ " ")
     ++ String.join (r.examples.map fun e =>
         "EXAMPLE " ++ e.database ++ " " ++ e.accession ++ "." ++ toString e.version ++ " "
@@ -741,6 +776,6 @@ def Rule.reconstruct (r : Rule) : String :=
           ++ (match e.compound with | some c => " " ++ c | none => "") ++ " ")
   "RULE " ++ r.name ++ " CATEGORY " ++ r.category ++ " " ++ comments
     ++ "CUTOFF " ++ toString (r.cutoff / 1000) ++ " NEIGHBOURHOOD " ++ toString (r.neighbourhood / 1000)
-    ++ " CONDITIONS " ++ t
+    ++ " CONDITIONS " ++ String.ofList (topChars r.conditions)
 
 end ASV.Parser
